@@ -73,6 +73,8 @@ def run(idx: ProgramIndex, rep: Report, tier: str):
     active_dims_order(idx, rep)
     diag_not_reclassified_by_shape(idx, rep)
     expand_shortcut_covers_members(idx, rep)
+    lazy_tensor_of_a_member(idx, rep)
+    outputs_per_input_of_members(idx, rep)
 
 
 # ---- C06-1 ---------------------------------------------------------------------------------------------------------
@@ -163,19 +165,51 @@ def active_dims_discipline(idx: ProgramIndex, rep: Report):
                     (isinstance(c.func, ast.Attribute) and c.func.attr == "index_select" and len(c.args) == 2 and isinstance(c.args[1], ast.Name) and "active_dims" in c.args[1].id):
                 sites.append((fi, c))
     call_fi = idx.method(K, "__call__", own=True)
-    own = [c for f, c in sites if f is call_fi]
-    ok = len(own) >= 1 and all(src(c.args[1]) == "self.active_dims" and src(c.args[0]) == "-1" for c in own)
-    # both x1 and x2 restricted
-    targets = set()
+
+    def selection(e: ast.AST, self_name: str) -> Optional[str]:
+        """None if `e` selects columns with the whole list self.active_dims along the last axis, else what it does instead"""
+        if isinstance(e, ast.Call) and isinstance(e.func, ast.Attribute) and e.func.attr == "index_select" and len(e.args) == 2:
+            if src(e.args[0]) == "-1" and src(e.args[1]) == "%s.active_dims" % self_name:
+                return None
+            return "`%s` is not index_select(-1, %s.active_dims)" % (src(e)[:60], self_name)
+        if isinstance(e, ast.Subscript) and isinstance(e.slice, ast.Tuple) and len(e.slice.elts) == 2 and isinstance(e.slice.elts[0], ast.Constant) and e.slice.elts[0].value is Ellipsis \
+                and src(e.slice.elts[1]) == "%s.active_dims" % self_name:
+            return None
+        if isinstance(e, ast.Call) and isinstance(e.func, ast.Attribute) and isinstance(e.func.value, ast.Name) and e.func.value.id == self_name:
+            h = K.lookup(e.func.attr)
+            if h is not None and h.kind == "method" and len(h.params) >= 2:
+                helpers_used.append(h)
+                rets = [r.value for r in ast.walk(h.node) if isinstance(r, ast.Return) and r.value is not None]
+                if not rets:
+                    return "the helper %s returns nothing" % h.qualname
+                for r in rets:
+                    why = selection(r, h.params[0])
+                    if why is not None:
+                        return "a path of the helper %s selects differently: %s" % (h.qualname, why)
+                return None
+        return "`%s` is not an index selection with the whole list self.active_dims" % src(e)[:60]
+    own, targets, whys = [], set(), []
+    helpers_used: List[FuncInfo] = []
+    sn = call_fi.params[0]
     for n in ast.walk(call_fi.node):
-        if isinstance(n, ast.Assign) and isinstance(n.value, ast.Call) and n.value in own and isinstance(n.targets[0], ast.Name):
-            targets.add(n.targets[0].id)
-    ok = ok and len(targets) == 2
+        if isinstance(n, ast.Assign) and len(n.targets) == 1 and isinstance(n.targets[0], ast.Name) and isinstance(n.value, (ast.Call, ast.Subscript)):
+            mentions = any(isinstance(x, ast.Attribute) and x.attr == "active_dims" for x in ast.walk(n.value)) or \
+                (isinstance(n.value, ast.Call) and isinstance(n.value.func, ast.Attribute) and isinstance(n.value.func.value, ast.Name) and n.value.func.value.id == sn and "active" in n.value.func.attr)
+            if not mentions:
+                continue
+            why = selection(n.value, sn)
+            own.append(n.value)
+            if why is None:
+                targets.add(n.targets[0].id)
+            else:
+                whys.append(why)
+    ok = not whys and len(targets) == 2
     rep.add("C06-1", "gpytorch.kernels.kernel:Kernel.__call__[applies active_dims]", call_fi.where, ok,
-            "x1 and x2 are restricted with index_select(-1, self.active_dims) before forward" if ok else "Kernel.__call__ no longer restricts both inputs to self.active_dims along the last dimension", {"restricted": sorted(targets)})
+            "x1 and x2 are restricted with an index selection over the whole list self.active_dims (last axis) before forward" if ok else
+            ("Kernel.__call__: " + "; ".join(sorted(set(whys))) if whys else "Kernel.__call__ no longer restricts both inputs to self.active_dims along the last dimension"), {"restricted": sorted(targets)})
     for f, c in sites:
-        if f is call_fi:
-            continue
+        if f is call_fi or f in helpers_used:
+            continue  # __call__ itself and the selection helpers it delegates to (checked above) are THE application point
         member = None
         for n in ast.walk(f.node):
             if isinstance(n, ast.Assign) and len(n.targets) == 1 and isinstance(n.targets[0], ast.Name) and n.targets[0].id == src(c.args[1]):
@@ -372,6 +406,21 @@ def lazy_reconstruction(idx: ProgramIndex, rep: Report):
             probs = _check_ctor(fi, c, base or "?", positional=True)
             rep.add("C06-4", "%s:SGPRPredictionStrategy.exact_prediction" % S.module.name, "%s:%d" % (fi.module.relpath, c.lineno), not probs,
                     "inputs in order, last_dim_is_batch and **params propagated from the source tensor" if not probs else "; ".join(probs), {})
+        elif len(c.args) >= 2 and isinstance(c.args[0], ast.Attribute) and c.args[0].attr == "x1" and isinstance(c.args[1], ast.Attribute) and c.args[1].attr == "x2":
+            # the same re-construction written as a kernel call: kernel(<t>.x1, <t>.x2, last_dim_is_batch=<t>.last_dim_is_batch, **<t>.params)
+            n += 1
+            base = src(c.args[0].value)
+            probs = []
+            if src(c.args[1].value) != base:
+                probs.append("x1 and x2 come from different tensors")
+            kw = {k.arg: k.value for k in c.keywords}
+            ldb = kw.get("last_dim_is_batch", c.args[2] if len(c.args) > 2 else None)
+            if ldb is None or src(ldb) != base + ".last_dim_is_batch":
+                probs.append("last_dim_is_batch of `%s` is not propagated" % base)
+            if not any(k.arg is None and src(k.value) == base + ".params" for k in c.keywords):
+                probs.append("**%s.params is not propagated" % base)
+            rep.add("C06-4", "%s:SGPRPredictionStrategy.exact_prediction" % S.module.name, "%s:%d" % (fi.module.relpath, c.lineno), not probs,
+                    "inputs in order, last_dim_is_batch and **params propagated from the source tensor (kernel call)" if not probs else "; ".join(probs), {})
     rep.floor("C06-4", "lazy re-construction sites", n, 5)
 
 
@@ -932,3 +981,72 @@ def expand_shortcut_covers_members(idx: ProgramIndex, rep: Report):
                 "the shortcut looks at the members' batch shapes" if per_member else
                 "`if %s: return self`: the compared shape is the broadcast over the kernel and its members; ScaleKernel(RBFKernel(batch_shape=[2]), batch_shape=[3, 2]).expand_batch([3, 2]) returns self with the member still at [2], so kernel(x)[1] (expand, then index every member with the full index) raises IndexError - also for sums / products / MultitaskKernel with mixed member batch shapes" % " ".join(t.split())[:60], {})
     rep.floor("C06-15", "early returns of expand_batch", n, 1)
+
+
+# ---- C06-16 --------------------------------------------------------------------------------------------------------
+def lazy_tensor_of_a_member(idx: ProgramIndex, rep: Report):
+    """A LazyEvaluatedKernelTensor evaluates `kernel` with active_dims switched off: it assumes x1 / x2 were already restricted by THAT
+    kernel's __call__.  Kernel.__call__ builds it with kernel=self after the restriction; code elsewhere that re-wraps the inputs of an
+    existing lazy tensor must keep its kernel.  Passing a member of that kernel (lazy.kernel.base_kernel, .kernels[i], ...) evaluates
+    the member on inputs its own active_dims never saw."""
+    rep.rule("C06-16", "a LazyEvaluatedKernelTensor built outside Kernel.__call__ from the inputs of an existing lazy tensor keeps that tensor's kernel: a member kernel (whose own active_dims were not applied to those inputs) is evaluated through its __call__ instead")
+    K = kernel_cls(idx)
+    call_fi = idx.method(K, "__call__", own=True)
+    n = 0
+    own = 0
+    for fi in sorted(idx.all_functions(), key=lambda f: (f.module.name, f.qualname)):
+        for c in calls_in(fi.node):
+            if (chain(c.func) or "").split(".")[-1] != "LazyEvaluatedKernelTensor":
+                continue
+            args = list(c.args)
+            kern = args[2] if len(args) >= 3 else next((k.value for k in c.keywords if k.arg == "kernel"), None)
+            if kern is None or len(args) < 2:
+                raise AnalysisError("C06-16: LazyEvaluatedKernelTensor call of unknown form in %s" % fi.qualname)
+            if fi is call_fi:
+                own += 1
+                ok = isinstance(kern, ast.Name) and kern.id == fi.params[0]
+                rep.add("C06-16", "%s:%s[kernel=%s]" % (fi.module.name, fi.qualname, src(kern)), "%s:%d" % (fi.module.relpath, c.lineno), ok,
+                        "the kernel that restricted the inputs" if ok else "Kernel.__call__ wraps its restricted inputs with another kernel `%s`" % src(kern), {})
+                continue
+            n += 1
+            x1, x2 = chain(args[0]) or "", chain(args[1]) or ""
+            base = x1.rsplit(".", 1)[0] if x1.endswith(".x1") else None
+            ok = base is not None and x2 == base + ".x2" and chain(kern) == base + ".kernel"
+            rep.add("C06-16", "%s:%s[kernel=%s]" % (fi.module.name, fi.qualname, src(kern)), "%s:%d" % (fi.module.relpath, c.lineno), ok,
+                    "re-wraps the inputs of `%s` with its own kernel" % base if ok else
+                    "the inputs `%s`, `%s` were restricted by the active_dims of the kernel that produced them, `%s` is evaluated on them with active_dims switched off: its own active_dims are never applied (SGPR with RBFKernel(active_dims=[2, 0]) as base kernel: predictive covariance off by 0.31)" % (src(args[0]), src(args[1]), src(kern)), {})
+    if own < 1:
+        raise AnalysisError("C06-16: Kernel.__call__ no longer builds the LazyEvaluatedKernelTensor (anchor)")
+    rep.add("C06-16", "gpytorch:<lazy kernel tensors built outside Kernel.__call__>", "gpytorch/", True, "%d construction site(s) outside Kernel.__call__ inspected" % n, {"sites": n}, trivial=True)
+
+
+# ---- C06-17 --------------------------------------------------------------------------------------------------------
+def outputs_per_input_of_members(idx: ProgramIndex, rep: Report):
+    """num_outputs_per_input(x1, x2) is asked by the lazy tensor with inputs restricted by the OUTERMOST kernel's active_dims; wrappers
+    (sums, products, grids, SGPR ...) pass the question on to a member with the same inputs - the member's own active_dims were never
+    applied to them.  An implementation that reads the width of its inputs (d + 1 outputs for d dimensions) therefore has to use the
+    kernel's own active dimensionality when active_dims is set; otherwise RBFKernelGrad(active_dims=(0, 2)) + ... on 4-column inputs
+    announces 5 outputs per input and produces 3 ('expected shape [25, 25] but got [15, 15]')."""
+    rep.rule("C06-17", "a num_outputs_per_input that depends on the input width uses the kernel's own active dimensionality when active_dims is set (wrappers forward inputs the member's active_dims were not applied to)")
+    K = kernel_cls(idx)
+    n = forwards = 0
+    for cls in sorted(idx.subclasses(K), key=lambda c: (c.module.name, c.qualname)):
+        fi = cls.methods.get("num_outputs_per_input")
+        if fi is None or cls is K:
+            continue
+        params = set(fi.params[1:])
+        if any(isinstance(c, ast.Call) and isinstance(c.func, ast.Attribute) and c.func.attr == "num_outputs_per_input" for c in ast.walk(fi.node)):
+            forwards += 1
+            continue
+        width = [x for x in ast.walk(fi.node)
+                 if (isinstance(x, ast.Call) and isinstance(x.func, ast.Attribute) and x.func.attr == "size" and isinstance(x.func.value, ast.Name) and x.func.value.id in params)
+                 or (isinstance(x, ast.Subscript) and isinstance(x.value, ast.Attribute) and x.value.attr == "shape" and isinstance(x.value.value, ast.Name) and x.value.value.id in params)]
+        if not width:
+            continue
+        n += 1
+        consults = any(isinstance(x, ast.Attribute) and x.attr == "active_dims" for x in ast.walk(fi.node))
+        rep.add("C06-17", "%s:%s.num_outputs_per_input" % (cls.module.name, cls.qualname), fi.where, consults,
+                "reads the input width only when the kernel has no active_dims of its own" if consults else
+                "returns a function of `%s` alone: asked through a wrapper (k1 + k2, k1 * k2, a grid / SGPR kernel) it sees inputs its own active_dims were not applied to and announces more outputs per input than forward produces" % src(width[0]), {})
+    rep.floor("C06-17", "width-dependent num_outputs_per_input implementations", n, 4)
+    rep.add("C06-17", "gpytorch:<wrappers forwarding num_outputs_per_input>", "gpytorch/kernels/", forwards >= 5, "%d wrapper kernel(s) pass the question on to a member with the inputs they received" % forwards, {"wrappers": forwards}, trivial=True)
